@@ -4,10 +4,17 @@
    fishing-reward table (all other eighteen state components are untouched), nothing else
    changes those tables, a report is accepted only from a registered node listed as fishman,
    a recovery only from the accused provider itself (serving storage) or a fishman.
+   Proved (Proofs/Faults.v): after an accepted ReportFaults every fault record is an unchanged old one or
+   was built from a VALID entry of the message -- an existing data model, an order of that model that
+   lists the named shard, the shard exists, is held by the accused provider named in the message and
+   its paid period has not ended -- filed under the reporter's address with status 1, penalty 0
+   (valid_report is stated independently of the handler); an accepted RecoverFaults changes or deletes
+   only records indexed under the provider the message names (for every history: fault records stay
+   keyed by their own identifier, run_fault_keyed).
    The model's penalty arithmetic is the code's for Penalty = 0, which is the only reachable
    value (the penalty tick cannot decode its own index entries; see Model/Node.v do_penalty);
    a non-zero penalty is outside the declared domain. *)
-From SaoVerif Require Import Base.Prelude Base.Ints Base.Dec Model.Did Model.Types Model.Monad Model.Bank Model.Select Model.Node Model.Storage Model.Sao Model.Hooks Model.App Model.Spec Proofs.Frame.
+From SaoVerif Require Import Base.Prelude Base.Ints Base.Dec Model.Did Model.Types Model.Monad Model.Bank Model.Select Model.Node Model.Storage Model.Sao Model.Hooks Model.App Model.Spec Proofs.Frame Proofs.Faults.
 From RecordUpdate Require Import RecordUpdate.
 Import RecordSetNotations.
 
@@ -37,3 +44,34 @@ Theorem C19_recover_faults_requires : forall cx s c p fl s' d,
             ((c = p /\ Z.land (n_status n) STATUS_SERVE_STORAGE <> 0) \/ (c <> p /\ is_fishman s c = true)).
 Proof. first [exact recover_faults_requires | apply recover_faults_requires]. Qed.
 Print Assumptions C19_recover_faults_requires.
+
+(* what a report may record (valid_report is stated independently of the handler) *)
+Theorem C19_report_records_only_valid : forall cx s c p fl s' d fid f,
+  step cx s (OReportFaults c p fl) = (s', OutTx COk d) -> faults s' !! fid = Some f ->
+  faults s !! fid = Some f \/
+  (fid = f_id f /\ f_reporter f = c /\ f_status f = 1 /\ f_penalty f = 0 /\
+   exists fi, In fi (map fst fl) /\ valid_report cx s p fi /\ f_id f = fi_newid fi /\ f_order f = fi_order fi /\
+              f_data f = fi_data fi /\ f_shard f = fi_shard fi /\ f_provider f = p).
+Proof. first [exact report_records_only_valid | apply report_records_only_valid]. Qed.
+Print Assumptions C19_report_records_only_valid.
+
+Theorem C19_report_unknown_order_ignored : forall cx s c p f raw s' d,
+  step cx s (OReportFaults c p [(f, raw)]) = (s', OutTx COk d) -> orders s !! fi_order f = None -> faults s' = faults s.
+Proof. first [exact report_unknown_order_ignored | apply report_unknown_order_ignored]. Qed.
+Print Assumptions C19_report_unknown_order_ignored.
+
+(* what a recovery may touch *)
+Theorem C19_recover_touches_only_accused : forall cx s c p fl s' d fid,
+  step cx s (ORecoverFaults c p fl) = (s', OutTx COk d) -> fault_keyed s ->
+  faults s' !! fid <> faults s !! fid -> exists raw sh, fault_idx s !! raw = Some (p, sh, fid).
+Proof. first [exact recover_touches_only_accused | apply recover_touches_only_accused]. Qed.
+Print Assumptions C19_recover_touches_only_accused.
+
+Theorem C19_step_fault_keyed : forall cx s op, fault_keyed s -> fault_keyed (fst (step cx s op)).
+Proof. first [exact step_fault_keyed | apply step_fault_keyed]. Qed.
+Print Assumptions C19_step_fault_keyed.
+
+(* fault records stay keyed by their own identifier in every history *)
+Theorem C19_run_fault_keyed : forall tr s, fault_keyed s -> fault_keyed (run tr s).
+Proof. first [exact run_fault_keyed | apply run_fault_keyed]. Qed.
+Print Assumptions C19_run_fault_keyed.
